@@ -311,7 +311,7 @@ def basic_index(kinds: str, maxlen: int = 5, maxstep: int = 3) -> JobOut:
         k = key(args)
         return pt.make_placeholder("a", shape, F64)[k], arr[k], {"a": arr}
 
-    smp = {f"n{d}": 4 for d in range(nd)}
+    smp = {f"n{d}": min(4, maxlen) for d in range(nd)}
     for d, k in enumerate(kinds):
         if k == "i":
             smp[f"x{d}"] = -1
@@ -321,7 +321,7 @@ def basic_index(kinds: str, maxlen: int = 5, maxstep: int = 3) -> JobOut:
     smp2 = dict(smp)
     for d, k in enumerate(kinds):
         if k == "s":
-            smp2 |= {f"a{d}": 1, f"b{d}": None, f"c{d}": 2}
+            smp2 |= {f"a{d}": 0, f"b{d}": None, f"c{d}": min(2, maxstep)}
     return JobOut(obs=[FnOb(f"basic_index/{kinds}", params, body, pre, [smp, smp2], timeout=600,
                             unbounded=tuple(unb), replay=_generic_numeric(np_build),
                             info={"node": "BasicIndex", "pattern": kinds,
@@ -498,7 +498,7 @@ def advanced_index(pattern: str, shp_sel: tuple, maxlen: int = 4, maxstep: int =
         want = arr[key(args, [data[n] for n in inames])]
         return node, want, data
 
-    smp = {f"n{d}": 3 for d in range(nd)}
+    smp = {f"n{d}": min(3, maxlen) for d in range(nd)}
     for d, k in enumerate(pattern):
         if k == "i":
             smp[f"x{d}"] = -2
